@@ -263,10 +263,11 @@ class Ref8(c07.Ref):
             region = self.region_text(r1, 0 if ln else o1, r2, -1 if ln else o2)
         if op == 'y':
             self.reg_put(reg, region, ln)
+            moved = not (ln and self.r == r1)
             self.r = r1
             if not ln:
                 self.o = o1
-            self.finish(0 if ln else 1)     # a character-wise yank refreshes the sticky column (repo aba50d5), a line-wise one does not
+            self.finish(1 if moved else 0)  # the sticky column is refreshed unless a line-wise yank leaves the cursor row alone (repo aba50d5, b5c2072)
             return
         if op == 'd':
             self.reg_put(reg, region, ln)
@@ -764,9 +765,47 @@ def gen_start(rng, ls, prog):
             prog.append(['m', rng.range(1, max(1, len(ls[r]))), ' '])
 
 
+def gen_pair_ops(rng, text):
+    """operators whose target is the matching bracket (also on an earlier / later line) or a backward F / T:
+    the cursor is first put on a bracket of the ORIGINAL text, so that c% cannot fail"""
+    ls = c07.lines_of(text)
+    spots = [(r, o) for r, l in enumerate(ls) for o, ch in enumerate(l) if ch in '()[]{}']
+    prog = []
+    if not spots:
+        return [gen_cmd(rng, text)]
+    r, o = rng.choice(spots)
+    prog.append(['g', r + 1])
+    if o:
+        prog.append(['m', o, ' '])
+    op = rng.choice(['d', 'd', 'd', 'y', 'y', 'c', 'g~', 'gU', '<', '>'])
+    if op == 'c' and c07.Ref(ls, 23).pair(r, o) is None:
+        op = 'd'              # an unbalanced bracket: % fails, and a failing c would run its text as commands
+    prog.append(['op', gen_reg(rng), 0, op, 0, '%', None, gen_typed(rng) if op == 'c' else ''])
+    for _ in range(rng.range(0, 3)):
+        t = rng.below(4)
+        if t == 0:
+            prog.append(c07.gen_motion(rng, text))
+        elif t == 1:
+            prog.append(['m', rng.choice([0, 0, 1, 2]), rng.choice('fFtT'), rng.choice('()[]{}')])
+        else:
+            op = rng.choice(['d', 'y', 'g~', 'gu'])
+            key = rng.choice(['%', '%', 'F', 'T'])
+            arg = rng.choice('([{ a') if key in 'FT' else None
+            prog.append(['op', gen_reg(rng), 0, op, 0, key, arg, ''])
+    if rng.chance(1, 2):
+        prog.append(['x', rng.choice(['', '1', 'a']), 0, rng.choice(['p', 'P'])])
+    return prog
+
+
+def gen_case_text(rng):
+    return c07.gen_pair_text(rng) if rng.chance(3, 20) else c07.gen_text(rng, 6)
+
+
 def gen_prog(rng, text):
     ls = c07.lines_of(text)
     prog = []
+    if any(ch in text for ch in '()[]{}') and rng.chance(1, 3):
+        return gen_pair_ops(rng, text)
     gen_start(rng, ls, prog)
     shape = rng.below(20)
     if shape < 3:
@@ -850,7 +889,7 @@ def run(ctx):
                 cases.append({'text': c['text'], 'rows': c['rows'], 'prog': c['prog']})
         n = 3000 if ctx.quick else 100000
         for i in range(n):
-            text = c07.gen_text(rng, 6)
+            text = gen_case_text(rng)
             cases.append({'text': text, 'rows': rng.choice([24, 24, 24, 6]), 'prog': gen_prog(rng, text)})
     res.count('cases', len(cases))
     obs = vlib.pmap(lambda c: check_case(exe, c), cases)
